@@ -409,6 +409,103 @@ def clear(c):
     c.ensure("peek_none", c.call(c.getattr(red, "peek")) is None)
 
 
+
+T3F = "inferno/learn/trainers/three_factor_stdp.py"
+
+
+def _mk_conditional(cls, nearest):
+    """two-input reducers: the trace of `obs` is updated where the separately observed condition holds"""
+    @contract(P, f"{cls}.forward", [(RT, f"{cls}.fold"), (RT, f"{cls}.__init__"), (RB, "FoldReducer.forward"), (RB, "FoldReducer.push"), (RB, "FoldReducer.peek")], tags=("reducer",))
+    def fwd(c, cls=cls):
+        dt, tc, A, scale = c.real("dt"), c.real("tc"), c.real("A"), c.real("scale")
+        dur = c.real("dur")
+        N, ptr, k = c.int("N"), c.int("ptr"), c.int("k")
+        c.require(dt > 0, tc > 0, dur >= 0, N >= 1, 0 <= ptr, ptr < N, 0 <= k, k < N)
+        inplace = c.bool("inplace")
+        red = new_reducer(c, RT, cls, dt, tc, A, scale, duration=dur, inplace=inplace)
+        c.ensure("decay_is_exp", num(c.getattr(red, "decay")) == f_exp(-dt.z / tc.z))
+        first = c.choice("observation", ["subsequent", "first_after_clear_keepshape"])
+        install_storage(c, red, N, ptr, initial=(first != "subsequent"))
+        rv = RV(c, red, N, ptr)
+        S = tz.Shape((tz.Star("S"),))
+        obs, cond = c.pw("obs", "float", eshape=S), c.pw("cond", "bool", eshape=S)
+        out = c.outcome(c.getattr(red, "forward"), obs, cond)
+        c.expect_return(out)
+        dec = f_exp(-dt.z / tc.z)
+        m, inc = cond.f, scale.z * obs.f + A.z
+        prev = rv.M0(1)
+        if first != "subsequent":
+            exp = z3.If(m, inc, 0)
+        elif nearest:
+            exp = z3.If(m, inc, dec * prev)
+        else:
+            exp = dec * prev + z3.If(m, inc, 0)
+        newest = smod(num(k) - 1, num(N)) == 0
+        c.ensure("newest_is_fold_where_the_condition_holds", z3.Implies(newest, rv.M1(k) == exp))
+        c.ensure("history_shifted", z3.Implies(z3.Not(newest), rv.M1(k) == rv.M0(k - 1)))
+        c.canary("canary_condition_ignored", z3.And(newest, rv.M1(k) == z3.If(first != "subsequent", inc, (inc if nearest else dec * prev + inc)), z3.Not(m), inc != 0, dec * prev != inc))
+
+    @contract(P, f"{cls}.dt@setter+interpolate", [(RT, f"{cls}.dt@setter"), (RT, f"{cls}.interpolate"), (RB, "RecordReducer.dt@setter")], tags=("reducer",))
+    def dtset(c, cls=cls):
+        dt, dt2, tc, A = c.real("dt"), c.real("dt2"), c.real("tc"), c.real("A")
+        c.require(dt > 0, dt2 > 0, tc > 0)
+        red = new_reducer(c, RT, cls, dt, tc, A, c.real("scale"))
+        c.setattr(red, "dt", dt2)
+        c.ensure("decay_recomputed", num(c.getattr(red, "decay")) == f_exp(-dt2.z / tc.z))
+        c.ensure("dt_reported", z3.And(num(c.getattr(red, "dt")) == dt2.z, num(red.fields["_data__dt"]) == dt2.z))
+        p, n, ts = c.pw("p"), c.pw("n"), c.pw("ts")
+        r = c.call(c.getattr(red, "interpolate"), p, n, ts, dt2)
+        c.ensure("analytic_decay_with_own_tau", r.f == p.f * f_exp(-ts.f / tc.z))
+        c.canary("canary_stale_decay", z3.And(dt.z != dt2.z, num(c.getattr(red, "decay")) == f_exp(-dt.z / tc.z)))
+
+
+_mk_conditional("ConditionalNearestTraceReducer", True)
+_mk_conditional("ConditionalCumulativeTraceReducer", False)
+
+
+@contract(P, "EligibilityTraceReducer.forward", [(T3F, "EligibilityTraceReducer.fold"), (T3F, "EligibilityTraceReducer.__init__"), (T3F, "EligibilityTraceReducer.dt@setter"), (T3F, "EligibilityTraceReducer.interpolate"), (RB, "FoldReducer.forward")], tags=("reducer",))
+def eligibility(c):
+    """z(t) = z(t - dt) exp(-dt/tau_z) + (obs x cond)/tau_z  with obs / cond reshaped by the connection's receptive
+    views (one arbitrary element of the receptive axis: the contraction over it is linear)"""
+    from .trainer_stubs import recept
+    from pyvc.models import WeakMethodV
+
+    dt, dt2, tc = c.real("dt"), c.real("dt2"), c.real("tc")
+    N, ptr, k = c.int("N"), c.int("ptr"), c.int("k")
+    c.require(dt > 0, dt2 > 0, tc > 0, N >= 1, 0 <= ptr, ptr < N, 0 <= k, k < N)
+    calls = []
+
+    def view(tag):
+        def fn(itp, x):
+            calls.append(tag)
+            return recept(x)
+
+        return WeakMethodV(Model(fn, tag))
+
+    red = new_reducer(c, T3F, "EligibilityTraceReducer", dt, tc, obs_reshape=view("obs_view"), cond_reshape=view("cond_view"))
+    c.ensure("decay_and_scale", z3.And(num(c.getattr(red, "decay")) == f_exp(-dt.z / tc.z), num(c.getattr(red, "scale")) == 1 / tc.z))
+    first = c.choice("observation", ["subsequent", "first_after_clear_keepshape"])
+    install_storage(c, red, N, ptr, initial=(first != "subsequent"))
+    rv = RV(c, red, N, ptr)
+    S = tz.Shape((tz.Star("S"),))
+    obs, cond = c.pw("trace", "float", eshape=S), c.pw("spike", "bool", eshape=S)
+    out = c.outcome(c.getattr(red, "forward"), obs, cond)
+    c.expect_return(out)
+    dec = f_exp(-dt.z / tc.z)
+    term = z3.If(cond.f, obs.f, 0) / tc.z
+    exp = term if first != "subsequent" else dec * rv.M0(1) + term
+    newest = smod(num(k) - 1, num(N)) == 0
+    c.ensure("newest_is_decayed_eligibility_plus_scaled_product", z3.Implies(newest, rv.M1(k) == exp))
+    c.ensure("history_shifted", z3.Implies(z3.Not(newest), rv.M1(k) == rv.M0(k - 1)))
+    c.ensure("observation_and_condition_go_through_their_own_views", calls == ["obs_view", "cond_view"])
+    red2 = new_reducer(c, T3F, "EligibilityTraceReducer", dt, tc, obs_reshape=view("obs_view"), cond_reshape=view("cond_view"))
+    c.setattr(red2, "dt", dt2)
+    c.ensure("decay_recomputed_on_dt_change", num(c.getattr(red2, "decay")) == f_exp(-dt2.z / tc.z))
+    p, n, ts = c.pw("p"), c.pw("n"), c.pw("ts")
+    r = c.call(c.getattr(red2, "interpolate"), p, n, ts, dt2)
+    c.ensure("analytic_decay_with_own_tau", r.f == p.f * f_exp(-ts.f / tc.z))
+    c.canary("canary_no_decay", z3.And(newest, rv.M1(k) == rv.M0(1) + term, first == "subsequent", rv.M0(1) != 0, dec != 1))
+
 ASSUMPTIONS = [
     "match criteria (criterion callables) are pure element-wise predicates (uninterpreted)",
     "inferno.exp / math.exp are the same real exponential function (uninterpreted `exp` with its axioms)",
@@ -416,7 +513,10 @@ ASSUMPTIONS = [
 ]
 
 MUTANTS = [
-    dict(file=TR, func="trace_cumulative", old="return decay * trace + amplitude * mask.to(dtype=trace.dtype)", new="return trace + amplitude * mask.to(dtype=trace.dtype)"),
+    dict(file=RT, func="ConditionalCumulativeTraceReducer.fold", old="matchfn=partial(lambda o, c: c, c=cond),", new="matchfn=partial(lambda o, c: ~c, c=cond),", contracts=["ConditionalCumulativeTraceReducer.forward"], name="conditional trace updated where the condition does NOT hold"),
+    dict(file=T3F, func="EligibilityTraceReducer.__init__", old="        self.scale = 1 / self.time_constant", new="        self.scale = 1.0", contracts=["EligibilityTraceReducer.forward"], name="eligibility increment not scaled by 1/tau_z"),
+    dict(file=T3F, func="EligibilityTraceReducer.dt@setter", old="        self.decay = math.exp(-self.dt / self.time_constant)", new="        pass", contracts=["EligibilityTraceReducer.forward"], name="eligibility decay not recomputed on dt change"),
+    dict(file=TR, func="trace_cumulative", old="return (decay * trace) + (amplitude * mask.to(dtype=trace.dtype))", new="return trace + (amplitude * mask.to(dtype=trace.dtype))"),
     dict(file=TR, func="trace_nearest", old="return torch.where(mask, amplitude, decay * trace)", new="return torch.where(mask, decay * trace, amplitude)"),
     dict(file=TR, func="trace_cumulative", old="mask = torch.abs(observation - target) <= tolerance", new="mask = torch.abs(observation - target) < tolerance"),
     dict(file=RG, func="EventReducer.fold", old="state + self.dt", new="state", contracts=["EventReducer.forward"]),
